@@ -93,10 +93,10 @@ PROPS = {
         "judge": True,
         "shards": 8,
         "trivial_outs": {"", "i0"},
-        "rule": "cases = (1) in-process PubSubManager: fixed witnesses + random multi-connection histories (2-5 connections; SUB/PSUB/UNSUB/PUNSUB named, all and empty; UNSUBALL; PUB; observers) over colliding pools of 10 channels and 20 patterns, each ending with a dump + the matcher on ALL (pattern, text) pairs over {a b * ? \\} up to 4x4 (quick) / 5x5 (thorough) + random longer pairs; (2) server level over TCP (n/6 histories): 2-4 clients, overlapping channels/patterns incl. binary names, SUBSCRIBE/PSUBSCRIBE/UNSUBSCRIBE/PUNSUBSCRIBE (named, all, nothing subscribed, malformed), PUBLISH with unique binary payloads from subscribers and non-subscribers, ordinary commands on subscribed connections, disconnects and reconnects; every third history also QUIT of subscribers (closing-leak), pipelined batches through RAW (replies owed before SUBSCRIBE; PUBLISH that reaches the publisher itself) and MULTI with an immediate PUBLISH/SUBSCRIBE; SUBCMD sends the request plus an ECHO marker in one write and collects every frame up to the marker, DRAIN collects pending pushed frames; each history ends by draining every client and one PUBLISH per channel; one evaluation = one manager call / one request with all frames the connection received, compared with the extracted Gallina model (runs of pmessage frames of one publish sorted by pattern; names of an unsubscribe-all sorted)",
-        "explanation": "theorems: manager - maps-consistency invariant over all histories, matcher = declarative glob (unbounded), PUBLISH receiver list = exactly the (connection, matching subscription) pairs each once (c14_delivery), acknowledgement counts, nothing after unsubscribe / unsubscribe_all; server - invariant along all histories of requests/connects/closes/drops, a PUBLISH writes one frame per receiver entry and replies their number, per-subscriber streams grow in event order and other requests write only to their issuer (c14_order*), pushed frames decode byte-for-byte (c14_payload_intact), (P)SUBSCRIBE confirmations carry the manager's counts, (P)UNSUBSCRIBE always confirms, nothing is written to a dropped connection; refuted: closing-leak. Tie: differential runs against the extracted model at both levels + property oracles on the implementation's outputs (acknowledgement counts, per-subscriber sequence = publish order of matching messages with bytes intact, PUBLISH reply = number of deliveries)",
+        "rule": "cases = (1) in-process PubSubManager: fixed witnesses + random multi-connection histories (2-5 connections; SUB/PSUB/UNSUB/PUNSUB named, all and empty; UNSUBALL; PUB; observers) over colliding pools of 10 channels and 20 patterns, each ending with a dump + the matcher on ALL (pattern, text) pairs over {a b * ? \\} up to 4x4 (quick) / 5x5 (thorough) + random longer pairs; (2) server level over TCP (n/6 histories): 2-4 clients, overlapping channels/patterns incl. binary names, SUBSCRIBE/PSUBSCRIBE/UNSUBSCRIBE/PUNSUBSCRIBE (named, all, nothing subscribed, malformed), PUBLISH with unique binary payloads from subscribers and non-subscribers, ordinary commands on subscribed connections, disconnects (client close, mostly while subscribed, followed by a two-round-trip barrier) and QUIT of subscribers, reconnects; every third history also requests on dead ids, pipelined batches through RAW (replies owed before SUBSCRIBE; PUBLISH that reaches the publisher itself) and MULTI with an immediate PUBLISH/SUBSCRIBE; SUBCMD sends the request plus an ECHO marker in one write and collects every frame up to the marker, DRAIN collects pending pushed frames; each history ends by draining every client and one PUBLISH per channel; one evaluation = one manager call / one request with all frames the connection received, compared with the extracted Gallina model (runs of pmessage frames of one publish sorted by pattern; names of an unsubscribe-all sorted)",
+        "explanation": "theorems: manager - maps-consistency invariant over all histories, matcher = declarative glob (unbounded), PUBLISH receiver list = exactly the (connection, matching subscription) pairs each once (c14_delivery), acknowledgement counts, nothing after unsubscribe / unsubscribe_all; server - invariant along all histories of requests/connects/closes/drops, a PUBLISH writes one frame per receiver entry and replies their number, per-subscriber streams grow in event order and other requests write only to their issuer (c14_order*), pushed frames decode byte-for-byte (c14_payload_intact), (P)SUBSCRIBE confirmations carry the manager's counts, (P)UNSUBSCRIBE always confirms, nothing is written to a connection after any disconnect (close, QUIT, protocol error, drop). Tie: differential runs against the extracted model at both levels + property oracles on the implementation's outputs (acknowledgement counts, per-subscriber sequence = publish order of matching messages with bytes intact, PUBLISH reply = number of deliveries)",
         "trusted_base": ["TCP level: the marker technique assumes the server answers the request and the ECHO marker in request order (C05)"],
-        "assumptions": ["PubSubManager is driven sequentially, as the single command thread of the server does", "TCP histories are sequential (one request in flight); a client that disconnects while subscribed appears only in the fixed closing-leak witness, because when the server finally drops it depends on a later failed write"],
+        "assumptions": ["PubSubManager is driven sequentially, as the single command thread of the server does", "TCP histories are sequential (one request in flight); after a client closes its socket two round trips on another connection precede the next request (the server must have read the EOF)"],
     },
     "C19": {
         "n": {"quick": 500, "thorough": 6000},
